@@ -138,7 +138,12 @@ def run(prog, chk):
 # 1. predicates
 # ---------------------------------------------------------------------------
 
+_PROG = None
+
+
 def limit_predicates(prog, chk):
+    global _PROG
+    _PROG = prog
     ncmp = {f: 0 for f in LIMITS}
     for body in prog.bodies.values():
         for field, variant in LIMITS.items():
@@ -509,19 +514,9 @@ def _enumerate_index(body, op, depth=10):
     return None
 
 
-def _len_subject_is_stored(body, arg_op):
-    """arg_op is `&value` passed to String::len; is `value` later moved into a tuple that is pushed?"""
-    arg_op = _through_views(body, arg_op)
-    ch = body.chase(arg_op)
-    # chase follows refs: ends at the place of the String local
-    if ch[0] != "place" and ch[0] != "call":
-        return False
-    if ch[0] == "call":
-        # value came straight from a call result
-        local = ch[2]["dest"][0]
-    else:
-        local = ch[1][0]
-    # the value may travel wrapped: `Ok(value)` out of a helper spliced in here, through `?`, and on
+def _wrapped_carriers(body, local):
+    """the locals a value travels through when it is handed on wrapped: `Ok(value)` out of a helper spliced in here,
+    through `?`, and on (the local itself first)"""
     carriers, work = [local], [local]
     while work:
         l = work.pop()
@@ -535,6 +530,22 @@ def _len_subject_is_stored(body, arg_op):
             if nl is not None and nl not in carriers and len(carriers) < 12:
                 carriers.append(nl)
                 work.append(nl)
+    return carriers
+
+
+def _len_subject_is_stored(body, arg_op):
+    """arg_op is `&value` passed to String::len; is `value` later moved into a tuple that is pushed?"""
+    arg_op = _through_views(body, arg_op)
+    ch = body.chase(arg_op)
+    # chase follows refs: ends at the place of the String local
+    if ch[0] != "place" and ch[0] != "call":
+        return False
+    if ch[0] == "call":
+        # value came straight from a call result
+        local = ch[2]["dest"][0]
+    else:
+        local = ch[1][0]
+    carriers = _wrapped_carriers(body, local)
     for (b, i, node, how, _c) in [u for l in carriers for u in R.forward_value_uses(body, l)]:
         if i != R.TERM and "rv" in node and node["rv"]["k"] == "aggr" and node["rv"]["ak"] == "tuple":
             tl = node["lhs"][0]
@@ -555,7 +566,7 @@ def _redispatch_sinks(body, l):
         if all(b != b0 or t is not t0 for (b0, t0, _c0) in sinks):
             sinks.append((b, t, c))
 
-    for (b, i, node, how, _c) in R.forward_value_uses(body, l, 8):
+    for (b, i, node, how, _c) in [u for l_ in _wrapped_carriers(body, l) for u in R.forward_value_uses(body, l_, 8)]:
         if i == R.TERM and node.get("k") == "call" and "fn" in node:
             c = Callee(node["fn"])
             if ("InputEvent" in c.inst and c.path.split("::")[-1] == "from") or (c.path.endswith("generate_events") and "SvgElement" in c.inst):
@@ -567,7 +578,7 @@ def _redispatch_sinks(body, l):
                     if "InputEvent" in c.inst and c.path.split("::")[-1] == "from":
                         add(b2, node2, c)
     for (b, t, c) in body.call_sites(R.path_endswith("generate_events")):
-        if t["args"] and R.origin_local(body, t["args"][0]) == l:
+        if t["args"] and R.origin_local(body, t["args"][0]) in set(_wrapped_carriers(body, l)) | {u[2]["lhs"][0] for l_ in _wrapped_carriers(body, l) for u in R.forward_value_uses(body, l_, 8) if u[1] != R.TERM and "lhs" in u[2] and not u[2]["lhs"][1]}:
             add(b, t, c)
     return sinks
 
@@ -623,9 +634,25 @@ def _len_subject_is_scope_attr(body, arg_op):
         src_local = it[1][0]
     if src_local is None:
         return False
+    # the element itself or a copy taken of it after the test (`let scope = el.clone()`)
+    same = {src_local}
+    for (bb, t, c) in body.call_sites(lambda c: c.decl_path == "std::clone::Clone::clone" and "SvgElement" in c.inst):
+        if t["args"] and R.origin_local(body, t["args"][0]) == src_local and t.get("dest") and not t["dest"][1]:
+            same.add(t["dest"][0])
+            same |= {u[2]["lhs"][0] for u in R.forward_value_uses(body, t["dest"][0]) if u[1] != R.TERM and "rv" in u[2] and u[2]["rv"].get("k") == "use" and not u[2]["lhs"][1]}
     for (bb, t, c) in body.call_sites(lambda c: c.path == "svgdx::context::TransformerContext::push_element"):
-        if len(t["args"]) >= 2 and R.origin_local(body, t["args"][1]) == src_local:
+        if len(t["args"]) >= 2 and R.origin_local(body, t["args"][1]) in same:
             return True
+    # ... or to a function of the crate that pushes that very parameter (a scope guard: push, run a closure, pop)
+    if _PROG is not None:
+        for (bb, t, c) in body.call_sites(lambda c: c.path.startswith("svgdx::") and c.path != "svgdx::context::TransformerContext::push_element"):
+            ks = [k for k, a in enumerate(t["args"]) if R.origin_local(body, a) == src_local]
+            cb = _PROG.maybe_body(c.path) if ks else None
+            if cb is None:
+                continue
+            for (b2, t2, c2) in cb.call_sites(lambda c: c.path == "svgdx::context::TransformerContext::push_element"):
+                if len(t2["args"]) >= 2 and R.origin_local(cb, t2["args"][1]) in [k + 1 for k in ks]:
+                    return True
     # ... or is processed as an element again (a container pushes its attributes as variables in turn)
     return bool(_redispatch_sinks(body, src_local))
 
